@@ -4,6 +4,7 @@ import (
 	"context"
 	"errors"
 	"fmt"
+	"reflect"
 	"runtime"
 	"strings"
 	"sync"
@@ -321,7 +322,7 @@ func tlStress(s *Stream, rng *Rng, withCancel bool, statusFocus bool) {
 				mu.Lock()
 				found := false
 				for _, v := range panicVals {
-					if fmt.Sprint(v) == fmt.Sprint(st.LastPanic) {
+					if reflect.DeepEqual(v, st.LastPanic) {
 						found = true
 					}
 				}
@@ -416,12 +417,12 @@ func tlStress(s *Stream, rng *Rng, withCancel bool, statusFocus bool) {
 		if len(raised) > 0 && ok && !nilPushed {
 			found := false
 			for _, v := range raised {
-				if fmt.Sprint(v) == fmt.Sprint(st.LastPanic) {
+				if reflect.DeepEqual(v, st.LastPanic) { // same dynamic type and value, not just the same text
 					found = true
 				}
 			}
 			if !found {
-				s.Violate("last-panic-wrong", fmt.Sprintf("LastPanic=%v after %d panics, not one of the panic values", st.LastPanic, len(raised)), sc)
+				s.Violate("last-panic-wrong", fmt.Sprintf("LastPanic=%#v (%T) after %d panics, not one of the panic values (compared with type)", st.LastPanic, st.LastPanic, len(raised)), sc)
 			}
 		}
 		if len(raised) == 0 && st.LastPanic != nil && !nilPushed {
